@@ -32,7 +32,8 @@ RULE = ('states: three of four over a seven-class schema (1:M, reflexive with ph
         'attributes; navigation chains of length 1-4 in [rel], [rel, phrase] and .nav() spelling '
         'from None, an instance, a QuerySet, a list with duplicates, a generator, with filters; '
         'navigate_subtype. Non-trivial = the expected answer is non-empty, or a filter removed '
-        'something; distinct by hash of (state, query).')
+        'something; distinct by hash of (state, query).'
+        " Also: states loaded from whole random populations (compound keys with permuted values, keys of equal hash value), navigation and referential filters compared with the key join of the written rows; and (last shard) every selection / navigation chain the repository's own tests perform, answered again by the naive evaluation.")
 ASSUMPTIONS = ['the naive evaluator in vf/checks/c09.py over vf/xmodel.Shadow is the specification',
                'orderings are requested only on non-referential attributes (an unlinked referential '
                'attribute reads None, which python cannot order against numbers)']
